@@ -164,6 +164,9 @@ fn one_file<T: savefile::Savefile + PartialEq + Debug>(
     bytes.extend(payload(value));
     let out = load_file::<T>(p, &bytes, value);
     p.count("file_cases", 1);
+    if std::env::var("VSCHEMA_VERBOSE").is_ok() {
+        println!("  file bytes {}\n  value {:?}\n  expectation {:?}, savefile::load -> {:?}", vcommon::hex(&bytes), value, expect, out);
+    }
     let case = json!({"kind":"file","type":type_name,"format":fmt,"label":label,"schema":rs_to_json(schema),
         "value_index":value_index,"expect":format!("{:?}",expect),"mutation_kind":mutation_kind});
     match expect {
@@ -207,17 +210,38 @@ fn one_file<T: savefile::Savefile + PartialEq + Debug>(
     }
 }
 
-pub fn type_cases<T: savefile::Savefile + PartialEq + Debug>(p: &mut Partial, type_name: &str, values: &[T]) -> RS {
+pub fn type_cases<T: savefile::Savefile + PartialEq + Debug>(p: &mut Partial, type_name: &str, values: &[T]) -> Option<RS> {
     // the model's view of the real schema of T (binding: real bytes -> model decoder -> to_real == real)
     p.count("transitions", 1);
     let real = savefile::get_schema::<T>(0);
+    let disagree = |p: &mut Partial, what: String| {
+        p.violation(Violation {
+            oracle: "persist_model_decode".into(),
+            tags: tags(&[("format_version", "2".into()), ("type", type_name.into())]),
+            summary: format!("schema of the derived type {}: {}", type_name, what),
+            case: json!({"kind":"save","type":type_name,"value_index":0}),
+        });
+    };
     let bytes2 = match real_ser(p, &real, 2) {
         Ok(b) => b,
-        Err(e) => vcommon::machinery_error(&format!("schema of {} cannot be serialized: {}", type_name, e)),
+        Err(e) => {
+            disagree(p, format!("cannot be serialized at format 2: {}", e));
+            return None;
+        }
     };
     let rs = match decode_schema(&bytes2, 2) {
         Ok((rs, used)) if used == bytes2.len() => rs,
-        other => vcommon::machinery_error(&format!("model cannot decode the schema of {}: {:?}", type_name, other.map(|x| x.1))),
+        other => {
+            disagree(
+                p,
+                format!(
+                    "the model decoder does not read the real format-2 bytes {} completely: {:?}",
+                    vcommon::hex(&bytes2),
+                    other.map(|x| x.1)
+                ),
+            );
+            return None;
+        }
     };
     if to_real(&rs) != real {
         p.violation(Violation {
@@ -272,7 +296,7 @@ pub fn type_cases<T: savefile::Savefile + PartialEq + Debug>(p: &mut Partial, ty
             one_file(p, type_name, fmt, &m.desc, &m.result, 0, &values[0], Expect::Rejected, m.kind);
         }
     }
-    rs
+    Some(rs)
 }
 
 pub fn values_p() -> Vec<P> {
@@ -310,11 +334,14 @@ pub fn values_n() -> Vec<N> {
 
 /// all file cases; returns the model trees of the three real types (they are also fed to the tree oracles)
 pub fn all_file_cases(p: &mut Partial) -> Vec<RS> {
-    vec![
+    [
         type_cases::<P>(p, "P", &values_p()),
         type_cases::<E>(p, "E", &values_e()),
         type_cases::<N>(p, "N", &values_n()),
     ]
+    .into_iter()
+    .flatten()
+    .collect()
 }
 
 /// replay of one file case
